@@ -376,9 +376,11 @@ def build_query(system, spec, extra_info=None, max_free=3, pre=None):
         encs.append(ce)
     names = [a for a in Iat + Oat if not isinstance(a, int)]
     pre_lines = [f"(assert {pre(shared, Iat)})"] if pre else []
-    lines = list(shared.lines) + [f"(assert {spec_smt})"] + pre_lines + lines
+    base = list(shared.lines) + [f"(assert {spec_smt})"] + pre_lines
+    lines = base + lines
     return "(set-logic ALL)\n" + "\n".join(lines) + "\n", names, dict(free_bits=len(free), copies=copies, Iat=Iat, Oat=Oat,
-                                                                     encoders=[shared] + encs)
+                                                                     encoders=[shared] + encs,
+                                                                     vacuity_text="(set-logic ALL)\n" + "\n".join(base) + "\n")
 
 
 def skolemize_with_free(enc, gates, known_atoms, ranges, free_atoms):
@@ -391,6 +393,11 @@ def decide_complete(system, spec, timeout=60, pre=None, rounds=6):
     P = system.P
     encs = info["encoders"]
     extra = []
+    # vacuity twin: the hypothesis Spec(I,O) and Pre(I) must be satisfiable, otherwise `unsat` below means nothing
+    rv = solvers.solve(info["vacuity_text"], timeout=min(timeout, 20))
+    info["queries"] = 1
+    if rv.status != "sat":
+        return "vacuous" if rv.status == "unsat" else "unknown", info
     for _ in range(rounds):
         prod_atoms = [it[1] for e in encs for it in e.order if it[0] == "mul"]
         ops = set()
